@@ -35,3 +35,10 @@ func TestWalks(t *testing.T) {
 	a := New(t, c.Chain, c.Oracle, c.Bridger, c.Variant, c.MaxNonce, c.Stake)
 	graph.RunWalks(t, a, a.W.Ctx, a.W.DumpHash)
 }
+
+func TestRecord(t *testing.T) {
+	var c consts
+	graph.Const(&c)
+	a := New(t, c.Chain, c.Oracle, c.Bridger, c.Variant, c.MaxNonce, c.Stake)
+	graph.RunRecord(t, a, a.W.Ctx)
+}
